@@ -30,6 +30,8 @@ Per target three sources; every source is a finite sequence with a stable index:
            Index order is "leading bytes major" so that contiguous index ranges share their leading bytes
            (the checks de-duplicate the decoded byte strings inside a shard).
 
+  immpair  instructions with two interacting immediates (AArch64 SBFM/BFM/UBFM/EXTR, ARM and Thumb-2 BFI/BFC/SBFX/UBFX,
+           PPC rlwinm/rlwimi/rlwnm, MIPS32 EXT/INS): complete product of the two fields, or its boundary band.
   x86stack x86 only: prefix stacks (segment x 66 x 67 x F3/F2/LOCK x REX) in front of string / lockable / SSE opcodes
            x ModRM forms - see X86Stack.
 
@@ -459,6 +461,74 @@ class X86Stack(object):
 
 
 # ---------------------------------------------------------------------------------------------
+# immediate pairs: instructions whose two immediates interact (bit-field position / width, rotate mask bounds):
+# the COMPLETE product of the two fields ("full") or its boundary band ("band": |a-b| <= 1, or a / b one of
+# 0, 1, n/2, n-1), registers fixed (Rd=2, Rn=1, Rm=3 or =Rn).  A template = (name, word builder f(a, b) -> units, na, nb).
+
+def _t2(hw1, f):
+    return lambda a, b: [hw1, f(a, b)]
+
+
+def _immpair_templates(testdir, kind):
+    T = []
+    if testdir == "aarch64":
+        # sf opc 100110 N immr imms Rn Rd ; 32-bit forms keep the 6-bit fields (values >= 32 are reserved encodings)
+        for nm, base in (("SBFM64", 0x93400000), ("BFM64", 0xB3400000), ("UBFM64", 0xD3400000),
+                         ("SBFM32", 0x13000000), ("BFM32", 0x33000000), ("UBFM32", 0x53000000)):
+            T.append((nm, (lambda base: lambda a, b: [base | a << 16 | b << 10 | 1 << 5 | 2])(base), 64, 64))
+        # EXTR Rd, Rn, Rm, #imms : a = 0 -> Rm = Rn (ROR alias), a = 1 -> Rm = X3
+        for nm, base in (("EXTR64", 0x93C00000), ("EXTR32", 0x13800000)):
+            T.append((nm, (lambda base: lambda a, b: [base | (1 if a == 0 else 3) << 16 | b << 10 | 1 << 5 | 2])(base), 2, 64))
+    elif testdir == "arm" and kind == "fixed32":
+        # BFI/BFC: a = msb, b = lsb ; SBFX/UBFX: a = width-1, b = lsb
+        for nm, base in (("BFI", 0xE7C00011), ("BFC", 0xE7C0001F), ("SBFX", 0xE7A00051), ("UBFX", 0xE7E00051)):
+            T.append((nm, (lambda base: lambda a, b: [base | a << 16 | 2 << 12 | b << 7])(base), 32, 32))
+    elif testdir == "arm" and kind == "thumb":
+        # hw2 = 0 imm3 Rd imm2 0 msb/widthm1 ; b = lsb = imm3:imm2
+        f = lambda a, b: (b >> 2) << 12 | 2 << 8 | (b & 3) << 6 | a
+        for nm, hw1 in (("BFI", 0xF361), ("BFC", 0xF36F), ("SBFX", 0xF341), ("UBFX", 0xF3C1)):
+            T.append((nm, _t2(hw1, f), 32, 32))
+    elif testdir == "ppc32":
+        # rlwinm / rlwimi RA, RS, SH, MB, ME ; rlwnm RA, RS, RB, MB, ME : a = MB, b = ME
+        for nm, base in (("RLWINM_sh0", 0x54000000 | 1 << 21 | 2 << 16), ("RLWINM_sh7", 0x54000000 | 1 << 21 | 2 << 16 | 7 << 11),
+                         ("RLWINM._sh31", 0x54000001 | 1 << 21 | 2 << 16 | 31 << 11),
+                         ("RLWIMI_sh7", 0x50000000 | 1 << 21 | 2 << 16 | 7 << 11), ("RLWNM", 0x5C000000 | 1 << 21 | 2 << 16 | 3 << 11)):
+            T.append((nm, (lambda base: lambda a, b: [base | a << 6 | b << 1])(base), 32, 32))
+    elif testdir == "mips32":
+        # EXT / INS rt, rs, pos, size : a = msbd / msb field, b = lsb field
+        for nm, base in (("EXT", 0x7C000000 | 1 << 21 | 2 << 16), ("INS", 0x7C000004 | 1 << 21 | 2 << 16)):
+            T.append((nm, (lambda base: lambda a, b: [base | a << 11 | b << 6])(base), 32, 32))
+    return T
+
+
+def _band(na, nb):
+    ba = set(x for x in (0, 1, na // 2, na - 1) if 0 <= x < na)
+    bb = set(x for x in (0, 1, nb // 2, nb - 1) if 0 <= x < nb)
+    return [(a, b) for a in range(na) for b in range(nb) if abs(a - b) <= 1 or a in ba or b in bb]
+
+
+IMMPAIR_TARGETS = ["aarch64l", "aarch64b", "arml", "armb", "armtl", "armtb", "ppc32b", "mips32l", "mips32b"]
+
+
+class ImmPair(object):
+    """dims: {"mode": "full" | "band"}.  Index order: template, then (a, b) row-major."""
+
+    def __init__(self, name, dims):
+        self.t = t = Target(name)
+        self.dims = dict(dims)
+        self.items = []
+        for nm, f, na, nb in _immpair_templates(t.testdir, t.kind):
+            pairs = _band(na, nb) if dims["mode"] == "band" else [(a, b) for a in range(na) for b in range(nb)]
+            for a, b in pairs:
+                self.items.append(t.pack(f(a, b)))
+        self.n = len(self.items)
+        self.group = 1
+
+    def item(self, i):
+        return self.items[i]
+
+
+# ---------------------------------------------------------------------------------------------
 # uniform access
 
 class Source(object):
@@ -472,6 +542,10 @@ class Source(object):
             self.item = self._c.item
         elif kind == "x86stack":
             self._c = X86Stack(name, dims)
+            self.n, self.group = self._c.n, self._c.group
+            self.item = self._c.item
+        elif kind == "immpair":
+            self._c = ImmPair(name, dims)
             self.n, self.group = self._c.n, self._c.group
             self.item = self._c.item
         else:
@@ -738,6 +812,9 @@ def make_plan(bounds, targets, only=None):
         dims = bounds.get("x86stack", {}).get(name)
         if dims:
             out += shards(name, "x86stack", dims, bounds["shard"])
+        dims = bounds.get("immpair", {}).get(name)
+        if dims:
+            out += shards(name, "immpair", dims, bounds["shard"])
     return out
 
 
@@ -755,6 +832,9 @@ def plan_sizes(bounds, targets):
         dims = bounds.get("x86stack", {}).get(name)
         if dims:
             d["x86stack"] = source(name, "x86stack", dims).n
+        dims = bounds.get("immpair", {}).get(name)
+        if dims:
+            d["immpair"] = source(name, "immpair", dims).n
         out[name] = d
     return out
 
